@@ -243,6 +243,10 @@ def find_base_hook(ex, st, f, args, kwargs):
         if cond:
             b = FB(mc, nr, um)
             s2.pc.append(b > 1)
+            # assumed contract of _find_base (bounded grid stand-in in C18): the ceiling decodes to max_count
+            from .contracts.countmin import DEC
+
+            s2.pc.append(DEC(um, nr, b) == z3.ToReal(mc))
             v = Sym(b, "float")
             v.origin = ("find_base", mc, nr, um)
             out.append(("val", v, s2))
